@@ -110,7 +110,7 @@ def r2_3_layouts(ctx, prog, rule="R2.3"):
             if "contains" in e[1]:
                 a = C.expr_of(pa, e[2])
                 rngs[repr(a[1])] = a[0]
-        okr = rngs.get(repr(("op:BitAnd", "top:raw_value[2]", 7))) == ("new", 3, 6) and rngs.get(repr("top:raw_value[3]")) == ("new", 0, 99)
+        okr = rngs.get(repr(("op:BitAnd", "top:raw_value[2]", 7))) == ("RangeInclusive::new", 3, 6) and rngs.get(repr("top:raw_value[3]")) == ("RangeInclusive::new", 0, 99)
         ctx.ob(rule, "error-code:decode-ranges", okr, "class / number range tests: %s" % {k[:40]: v for k, v in rngs.items()}, info["where"])
         ctx.ob(rule, "error-code:decode", ok, "decoded code = %s" % show(r)[:220], info["where"])
         break
